@@ -137,7 +137,7 @@ func init() {
 
 func init() {
 	reg(&Spec{
-		ID: "C11", Pkgs: []string{"gateway", "util"}, LoopBound: 400,
+		ID: "C11", Pkgs: []string{"gateway", "util"}, LoopBound: 400, EngineOnly: []string{"VH_C11_race"},
 		Quick: func() []Inst {
 			var out []Inst
 			for k1 := int64(0); k1 <= 5; k1++ {
@@ -148,20 +148,22 @@ func init() {
 			}
 			out = append(out, inst("gateway", "VH_C11_cycle", 0, -1, 1), inst("gateway", "VH_C11_cycle", 1, 0, 1))
 			out = append(out, inst("gateway", "VH_C11_timed", 1), inst("gateway", "VH_C11_timed", 3))
+			out = append(out, inst("gateway", "VH_C11_race", 1), Inst{Pkg: "gateway", Fn: "VH_C11_race", Args: []int64{2}, MaxPaths: 100000})
 			for _, k := range [][2]int64{{0, 0}, {1, 0}, {2, 1}, {3, 0}, {0, 2}} {
 				out = append(out, inst("gateway", "VH_C11_two_cycles", k[0], k[1], 0), inst("gateway", "VH_C11_two_cycles", k[0], k[1], 1))
 			}
 			return out
 		},
-		Asserts: []string{"C11.sleep_request_answered", "C11.nothing_sent_while_asleep", "C11.buffered_delivered_once_then_pingresp", "C11.buffered_in_original_order", "C11.followed_by_pingresp", "C11.asleep_again_after_pingresp", "C11.timed_delivered_once", "C11.first_cycle_delivered_once", "C11.second_cycle_delivers_only_its_own_packets"},
-		Reach:   []string{"C11.woke_up", "C11.second_cycle", "C11.woke_up_later", "C11.second_wakeup"},
+		Asserts: []string{"C11.sleep_request_answered", "C11.nothing_sent_while_asleep", "C11.buffered_delivered_once_then_pingresp", "C11.buffered_in_original_order", "C11.followed_by_pingresp", "C11.asleep_again_after_pingresp", "C11.timed_delivered_once", "C11.first_cycle_delivered_once", "C11.second_cycle_delivers_only_its_own_packets", "C11.race_message_delivered_once", "C11.race_each_wakeup_answered", "C11.race_free"},
+		Reach:   []string{"C11.woke_up", "C11.second_cycle", "C11.woke_up_later", "C11.second_wakeup", "C11.race_done"},
 		Bounds: map[string]string{
 			"cycle":  "active client, DISCONNECT(duration symbolic > 0), then 1..2 broker events among PUBLISH QoS 0 short / QoS 1 registered / QoS 0 new topic (REGISTER) / QoS 2 short / PINGRESP / UNSUBACK with symbolic IDs, payload byte, retain; PINGREQ; oracle = a twin session that never slept and received the same events",
 			"second": "one more broker PUBLISH after the wake-up PINGRESP (second sleep cycle)",
+			"race":   "pre-emptive interleavings (context bound 1 and 2) of a broker PUBLISH on the broker-side receive goroutine with the wake-up PINGREQ on the client-side receive goroutine: the message is delivered exactly once, in this wake-up or the next; each wake-up gets one PINGRESP; no lock-free conflicting accesses",
 			"cycles": "two sleep cycles: cycle 1 ended by PINGREQ or by CONNECT (back to active), then DISCONNECT(d) again, a second broker event, PINGREQ: only the second cycle's packets arrive, once",
 			"timed":  "virtual time: one broker PUBLISH QoS 1 / QoS 2 while asleep, wake-up after a symbolic time < 3.5 s with the gateway's retry timers (RetryDelay 1 s, RetryCount 2) running",
 		},
-		Outside: []string{"a broker PUBLISH racing with the PINGREQ on the other receive goroutine (needs pre-emptive interleaving; pktBuffer is unsynchronised - see DESIGN.md)", "more than two buffered events"},
+		Outside: []string{"more than two buffered events", "more than 2 pre-emptions in the race harness; races with CONNECT / DISCONNECT instead of PINGREQ", "schedule-dependent counterexamples are confirmed by concrete re-execution of the recorded schedule in the engine, not natively"},
 	})
 }
 
